@@ -17,15 +17,18 @@ def claim(pid, category, technique, text, note, ref):
 
 
 claim("C02", "proof",
-      "abstract evaluation of every decision site over the integer regions induced by the literals it can compare with (effects recorded, nothing executed) + conditional constant propagation + enumerated truth tables",
+      "abstract evaluation of every decision site over the integer regions induced by the literals it can compare with, of check_command's truth table through the command itself, of both findings renderers on a report with one function per boundary length, and of accumulator isolation (effects recorded, nothing executed)",
       "Every site that turns a function length into a category-dependent outcome (profiles, counters, colours, symbols, check "
-      "list, findings list) is evaluated from its source for one length per region and both sides of every cut - the cuts are all "
-      "integer literals reachable from the site, collected on every run - and compared with the partition 15/30/60 (thorough: every "
-      "length 1..5000); check's exit status and quiet/report decision are an enumerated 18-row truth table, the summary count a 4-row "
-      "table. Finite case analysis, all obligations discharged = proof for the decision logic; rendering by Rich is not covered.",
-      "Trusted: CPython ast, Python int comparison semantics, sa.core call resolution, sa.absint's semantics of the Python subset. "
-      "Assumes lengths are ints >= 1 and that a site depends on the length only through comparisons with reachable integer literals.",
-      "DESIGN.md 4/C02, 12.3")
+      "list, findings lists) is evaluated from its source for one length per region and both sides of every cut - the cuts are all "
+      "integer literals reachable from the site (for table-driven sites: the specification's cuts and every integer literal of the "
+      "package), collected on every run - and compared with the partition 15/30/60 (thorough: every length 1..5000); check's exit "
+      "status and whether it prints anything are an 18-row truth table obtained by interpreting check_command on a virtual file "
+      "(plus three files, two with one base name); both print_findings list exactly the functions longer than 30, longest first; "
+      "a new ScanTotals / LanguageTotals / Codebase does not see an earlier instance's counts. Finite case analysis, all obligations "
+      "discharged = proof for the decision logic; rendering by Rich is not covered.",
+      "Trusted: CPython ast, Python int comparison semantics, sa.absint's semantics of the Python subset, the virtual file system. "
+      "Assumes lengths are ints >= 1 and that a site depends on the length only through comparisons with integer literals of the package.",
+      "DESIGN.md 4/C02, 12.3, 13")
 
 claim("C15", "proof",
       "symbolic evaluation of the pattern DSL + abstract interpretation of predicate classes + exhaustive product exploration (DFA state x depth class x token class)",
@@ -49,23 +52,28 @@ claim("C13", "other",
       "DESIGN.md 4/C13, 12.3")
 
 claim("C14", "other",
-      "exhaustive oracle exploration of find_all's control logic over abstract attempts (abstract interpretation of the source, execution-tree enumeration) + abstract interpretation of Balanced over depth x token classes",
+      "exhaustive oracle exploration of find_all's control logic over abstract attempts (abstract interpretation of the source, execution-tree enumeration), find_all through the interpreted engine on concrete patterns and sequences, abstract interpretation of Balanced over its reachable states x token classes",
       "Bounded-exhaustive: find_all is evaluated on sequences of n symbolic items with abstract attempts - accepting / no outgoing "
       "transition / consumes the next item answered by an oracle, every combination enumerated - and reports exactly the matches of the "
       "reference semantics (start order, disjoint also at end of input, only accepting attempts that cannot continue, end = first item "
-      "not consumed): n = 2 complete and n = 3 without dead ends (quick), n = 3 complete (thorough). Balanced's transfer table from its "
-      "source for depths 0..3; exclusive ends used as such by get_headers. Longer sequences and the language-level clauses are not decided.",
+      "not consumed): n = 2 complete and n = 3 without dead ends (quick), n = 3 complete and n = 4 without dead ends (thorough); as a "
+      "second view find_all is interpreted through the repo's own engine on non-nullable pattern trees x all sequences over {a, b} up to "
+      "length 3 (thorough 4), also checking the recorded items. Balanced's transfer table from its source on every reachable "
+      "(depth 0..3, flags) state; exclusive ends used as such by get_headers. Longer sequences are not decided.",
       "Trusted: sa.absint's semantics of the Python subset; the abstraction of Pattern by (accepting, dead end, consumes) per consumed count.",
-      "DESIGN.md 4/C14, 12.3")
+      "DESIGN.md 4/C14, 12.3, 13")
 
 claim("C06", "other",
-      "effect analysis over the CHA call graph: set-iteration classification, predicate-receiver provenance, global-state write inventory, nondeterministic-source reachability (AST)",
-      "Effect property decided structurally on every function reachable from scan_file / scan_path / check_command: every "
-      "iteration over a set is order-insensitive (one admitted site, conditional on consume examining all transitions), "
-      "stateful predicates are only used through per-attempt deep copies, nothing writes module/class level state except the "
-      "State id counter, nondeterministic sources reach only uuid/timestamp, no expression has two equal stateful atoms.",
+      "abstract evaluation of Pattern.consume over all two-transition scenarios and of the engine under both set iteration orders; effect analysis over the call graph: set-iteration classification, global-state write inventory, nondeterministic-source reachability (AST)",
+      "Evaluated: the outcome of Pattern.consume is independent of the order of the transition list and every accept()/is_open() call "
+      "reaches a per-attempt copy (32 scenarios, exhaustive); for 40 pattern trees the repo's expression_to_nfa / nfa_to_dfa interpreted "
+      "with every set iterated in the opposite order give a deterministic automaton of the same language, and find_all the same "
+      "matches. Structural on every function reachable from scan_file / scan_path / check_command (implicit calls through special "
+      "methods, properties and functions passed as values included): set iterations outside the engine are order-insensitive, "
+      "nothing writes module/class level state except the State id counter, nondeterministic sources reach only uuid/timestamp, no "
+      "expression has two equal stateful atoms.",
       "Trusted: pygments determinism; CHA over-approximates dynamic dispatch by method name. File listing order of os.walk is outside the property.",
-      "DESIGN.md 4/C06")
+      "DESIGN.md 4/C06, 13")
 
 claim("C08", "other",
       "abstract interpretation of ReportWriter / ReportReader on a report built through the repo's constructors (json.dumps/loads real, everything else interpreted) + textual schema rules (f-string placeholder classification, key trees)",
@@ -198,14 +206,17 @@ claim("C05", "other",
       "DESIGN.md 4/C05, 13")
 
 claim("C16", "other",
-      "abstract evaluation of lex with the lexer's tuples and the newline table supplied (position formula on all pieces and breakpoints, filter flags), line-convention and order rules (AST)",
-      "Partial: what lex keeps (filter_tokens flags per filter_comments, plus the filter's abstract table), lexer order preserved, "
-      "position = (newlines strictly before the offset + 1, offset - offset after the preceding newline + 1) on interior and boundary "
-      "points of every piece, with, without, adjacent and leading newlines - in particular a token at a newline's offset stays on the "
-      "line that newline ends; a single line-break convention ('\\n' only, no splitlines). Assumes the position depends on the offset "
-      "only through comparisons with the newline table and linear arithmetic.",
+      "abstract evaluation of lex at the pygments boundary (the lexer's tuples supplied: what is kept, in which order, with which text) and with a consistent text / newline table (position formula on all pieces and breakpoints); line-convention rule (AST)",
+      "Partial: of the lexer's tuples (comments of four kinds, one with surrounding blanks, blank / empty / multi-line Text, keyword, "
+      "name, punctuation, strings, operator, other) lex returns the code tokens unchanged, plus the comments exactly when "
+      "filter_comments is false, in the lexer's order (plus the filter's abstract kind x text table); position = (newlines strictly "
+      "before the offset + 1, offset - offset after the preceding newline + 1) on interior and boundary points of every piece, with, "
+      "without, adjacent and leading newlines (thorough: every table of up to three newlines among offsets 0..6 x every offset 0..8) - "
+      "in particular a token at a newline's offset stays on the line that newline ends; the lexer is modelled at its documented "
+      "interface (get_tokens_unprocessed; get_tokens strips leading/trailing newlines); a single line-break convention ('\\n' only, "
+      "no splitlines). Assumes the position depends on the offset only through comparisons with the newline table and linear arithmetic.",
       "Trusted: pygments yields increasing non-overlapping offsets and only '\\n' ends a line; sa.absint.",
-      "DESIGN.md 4/C16, 12.3")
+      "DESIGN.md 4/C16, 12.3, 13")
 
 claim("C17", "other",
       "abstract evaluation of the marker predicate over classes of comment text x token kinds; dataflow location of the marker filter (membership test, element, polarity, position) (AST)",
